@@ -94,7 +94,12 @@ def eval_call(I: Interp, n: ast.Call, env: Env):
     args = []
     for a in n.args:
         if isinstance(a, ast.Starred):
-            args.extend(I.concrete_iter(I.eval(a.value, env)))
+            sv_ = I.eval(a.value, env)
+            if isinstance(sv_, Opaque) or (isinstance(sv_, SV) and isinstance(sv_.ty, Abs)) or (
+                    isinstance(sv_, Iter) and any(isinstance(x, (Opaque, SV)) for x in sv_.srcs)):
+                args.append(Opaque("*args"))  # unknown number of positional arguments
+            else:
+                args.extend(I.concrete_iter(sv_))
         else:
             args.append(I.eval(a, env))
     kwargs = {}
@@ -103,6 +108,8 @@ def eval_call(I: Interp, n: ast.Call, env: Env):
             d = I.eval(kw.value, env)
             if isinstance(d, PyDict):
                 kwargs.update(d.d)
+            elif isinstance(d, Opaque):
+                kwargs["**"] = d  # unknown keyword arguments
             else:
                 raise Unsupported("**kwargs of symbolic dict")
         else:
@@ -167,7 +174,7 @@ def isinstance_(I: Interp, v, c, node=None):
     if isinstance(v, SV):
         return {INT: name == "int", BOOL: name in ("bool", "int"), CHAR: name == "str", STR: name == "str"}.get(v.ty, False)
     if isinstance(v, SList):
-        return name == ("str" if v.is_str else "list")
+        return name == ("str" if v.is_str else getattr(v, "pykind", "list"))
     if pyt is not None:
         return isinstance(v, pyt)
     return False
@@ -334,6 +341,8 @@ def b_reversed(I, v):
 
 
 def b_iter(I, v):
+    if isinstance(v, Opaque):
+        return Opaque("iter")
     if isinstance(v, Iter):
         return v
     if isinstance(v, Obj) and v.cls == "generator":
@@ -344,6 +353,9 @@ def b_iter(I, v):
 def b_next(I, it, *default):
     from .stmts import iter_len_and_get
 
+    if isinstance(it, Opaque):
+        I.V.may_raise(I, "next")
+        return Opaque("next")
     if not isinstance(it, Iter):
         raise Unsupported(f"next() of {it!r}")
     n, getter = iter_len_and_get(I, Iter(it.kind, it.srcs, it.start))
